@@ -12,8 +12,10 @@ PROPS["C15"] = dict(
                "two-sided reference extractor and the fold of the individual propagators. Exploration is the right "
                "level: histories and byte strings are unbounded domains with a cheap oracle; only the 326 ordered "
                "subsets of the composite are a finite space, and they are covered many times over.",
-    technique="stateful model-based PBT (list model) + inject/extract round trip + differential reference extractor "
-              "(two-sided) + composite-vs-parts differential with an order model; rapidcheck and libFuzzer",
+    technique="stateful model-based PBT (list model; receivers built through Set and receivers parsed from headers "
+              "with repeated keys) + inject/extract round trip (fresh and reused carriers) + differential reference "
+              "extractor (two-sided) + composite-vs-parts differential with a two-valued order model; rapidcheck and "
+              "libFuzzer",
     rule="Cases are choice streams decoded into Baggage operation histories / entry lists / header strings / "
          "(propagator order, contexts, carrier) triples.",
     assumptions=[
@@ -31,6 +33,30 @@ PROPS["C15"] = dict(
         "whose metadata has no ',' and no trailing blank (the quantifier's restriction)",
         "composite Extract is compared through everything observable of a Context here (span context, baggage, "
         "an unrelated user value, identity with the caller's context), not node by node",
+        "order model of the composite: a valid b3 header decides alone for both B3 propagators (documented precedence); "
+        "a b3 header that carries no usable ids ('zz-not-hex-!!', the sampling-only '0') next to usable X-B3-* headers "
+        "is an open point - each configured B3 propagator may stop there or fall back to the multi headers (the same "
+        "region is either-way in C16), every combination is accepted",
+        "a baggage can hold a key more than once only when it came out of FromHeader (an either-way region of "
+        "extraction): on such a receiver Set and Delete act on EVERY entry of the key ('replaces an existing key', "
+        "'removes it' - no stale entry of the key survives), GetValue may answer with the value of any of its entries, "
+        "and the exact round trip is not demanded of a baggage with a repeated key (it cannot be built through Set)",
+        "'nothing valid remains' is decided by the reference reader: when both trimming rules leave no member that "
+        "may be kept the context must be the caller's; when both find a member that must be kept among the first 180 "
+        "the context must be new; in between the implementation's own FromHeader result decides",
+        "a carrier answers a missing header with an empty string or with the null view (both are exercised); an "
+        "empty baggage may be injected by writing nothing or by writing an empty header",
+        "reused carrier: the baggage injected LAST is what extraction must rebuild, whatever the same propagator wrote "
+        "into the carrier before; finding C15-stale-baggage ('reused carrier + empty baggage' left the old header in place) is fixed in "
+        "/repo (c21e997) and the shape is generated",
+        "NOT covered: baggages made with the unvalidated constructor Baggage(const T &keys_and_values) (arbitrary, "
+        "possibly non-printable or empty keys that ToHeader then writes) - the statement speaks of baggage built "
+        "through Set",
+        "<cctype> calls with a negative argument other than EOF (header bytes >= 0x80 passed as plain char to "
+        "isalnum / isdigit / isspace / toupper) are counted through a checked shim (tag ctype-negative-char-argument) but NOT "
+        "reported: undefined by the C standard, defined by glibc (tables cover -128..-1), so on this platform the "
+        "statement's outcome is unaffected - recorded as an observation, proposed_fixes/C15-ctype-negative-char.diff shows "
+        "the portable form",
         SC_NOTE,
     ],
     runs=[
